@@ -103,6 +103,8 @@ zpos = z3.Function('zpos', ISeq, Int)              # a position of a zero litera
 mpos = z3.Function('mpos', ISeq, Int)              # a position of a literal of maximal absolute value (non-empty list)
 PairSet = z3.ArraySort(Int, Int, Bool)
 card2 = z3.Function('card2', PairSet, Int)           # cardinality of a finite set of pairs
+mrow = z3.Function('mrow', Int, Int, Int, ISeq)        # (group, u, m): the variables p[u,1..m] of a unary mapping, in order
+mcol = z3.Function('mcol', Int, Int, Int, ISeq)        # (group, v, n): the variables p[1..n,v], in order
 IArr = z3.ArraySort(Int, Int)
 psum = z3.Function('psum', IArr, IArr, Int, Int)   # psum(I,W,t) = sum_{s<t} (I[s]-1)*W[s]   (mixed-radix value)
 pow2 = z3.Function('pow2', Int, Int)              # 2**x for x >= 0
@@ -201,7 +203,7 @@ FUNCS = dict(tlen=tlen, tcoef=tcoef, tlit=tlit, tunit=tunit, tnegc=tnegc, tset=t
              ilen=ilen, iget=iget, inil=inil, isnoc=isnoc, iapp=iapp, ineg=ineg, haszero=haszero,
              maxof=maxof, minof=minof, maxabs=maxabs, lit_true=lit_true, count=count, ctrue=ctrue,
              clen=clen, cget=cget, cnil=cnil, csnoc=csnoc, capp=capp, ctake=ctake, combs=combs, sat=sat,
-             cmaxabs=cmaxabs, pow2=pow2, chaszero=chaszero, psum=psum, card2=card2, isperm=isperm, sortedperm=sortedperm, invperm=invperm, imapsub=imapsub, zpos=zpos, mpos=mpos, rnbrs=rnbrs, apseq=apseq, negunits=negunits, idxcombs=idxcombs, iflip1=iflip1, iflips=iflips, neqprefix=neqprefix, signvecs=signvecs, sprod=sprod, smul=smul, pfilter=pfilter, iofarr=iofarr, nbrs=nbrs, evar=evar, liftcls=liftcls, liftsem=liftsem, yblock=yblock, ifront=ifront, ilast=ilast, psatx=psatx, valid1x=valid1x, cvalidx=cvalidx, yxdom=yxdom, signvecsm=signvecsm, ysign=ysign, ydom=ydom, psat=psat, valid1=valid1, cvalid=cvalid, cdistinct=cdistinct, cmem=cmem, cset=cset, csubsel=csubsel, implchain=implchain, ishift=ishift, preds=preds, outdeg=outdeg, gtopo=gtopo, gsinkok=gsinkok,
+             cmaxabs=cmaxabs, pow2=pow2, chaszero=chaszero, psum=psum, card2=card2, isperm=isperm, sortedperm=sortedperm, invperm=invperm, imapsub=imapsub, zpos=zpos, mpos=mpos, rnbrs=rnbrs, apseq=apseq, negunits=negunits, idxcombs=idxcombs, iflip1=iflip1, iflips=iflips, neqprefix=neqprefix, signvecs=signvecs, sprod=sprod, smul=smul, pfilter=pfilter, mrow=mrow, mcol=mcol, iofarr=iofarr, nbrs=nbrs, evar=evar, liftcls=liftcls, liftsem=liftsem, yblock=yblock, ifront=ifront, ilast=ilast, psatx=psatx, valid1x=valid1x, cvalidx=cvalidx, yxdom=yxdom, signvecsm=signvecsm, ysign=ysign, ydom=ydom, psat=psat, valid1=valid1, cvalid=cvalid, cdistinct=cdistinct, cmem=cmem, cset=cset, csubsel=csubsel, implchain=implchain, ishift=ishift, preds=preds, outdeg=outdeg, gtopo=gtopo, gsinkok=gsinkok,
              ev3=ev3, evnest=evnest, dedges=dedges, opq=opq, wid=wid, evrow=evrow, rowapp=rowapp, rowsfrom=rowsfrom, dropc=dropc, dterms=dterms, dcons=dcons, tevent=tevent, cevent=cevent, dlits=dlits, dclauses=dclauses, levent=levent, gad=gad, cdist_tab=cdist_tab, cdist=cdist, cdistall=cdistall, cind=cind, satind=satind, aind=aind)
 
 
@@ -305,6 +307,10 @@ def _on_terms(terms_by_decl):
         out.append(ilen(ineg(s)) == ilen(s))
         out.append(z3.Implies(z3.Not(haszero(s)), z3.Not(haszero(ineg(s)))))
         out.append(maxabs(ineg(s)) == maxabs(s))
+    for (s, t_) in terms_by_decl.get('iapp', []):
+        # Seq.lean iapp_*: length, zero membership, largest magnitude of a concatenation
+        out += [ilen(iapp(s, t_)) == ilen(s) + ilen(t_), haszero(iapp(s, t_)) == z3.Or(haszero(s), haszero(t_)),
+                maxabs(iapp(s, t_)) == zmax(maxabs(s), maxabs(t_))]
     for (s, x) in terms_by_decl.get('isnoc', []):
         out.append(ilen(isnoc(s, x)) == ilen(s) + 1)
         out.append(maxabs(isnoc(s, x)) == zmax(maxabs(s), zabs(x)))
@@ -355,6 +361,17 @@ def _on_terms(terms_by_decl):
     for (s, k) in terms_by_decl.get('combs', []):
         out.append(cmaxabs(combs(s, k)) <= maxabs(s))
         out.append(z3.Implies(z3.Not(haszero(s)), z3.Not(chaszero(combs(s, k)))))
+    for (g, u, m) in terms_by_decl.get('mrow', []):
+        out.append(z3.Implies(m >= 0, ilen(mrow(g, u, m)) == m))                         # definitions (row / column of a mapping)
+    for (g, v, n) in terms_by_decl.get('mcol', []):
+        out.append(z3.Implies(n >= 0, ilen(mcol(g, v, n)) == n))
+    for (sq, i) in terms_by_decl.get('iget', []):
+        if z3.is_app(sq) and sq.decl().name() == 'mrow':
+            g, u, m = sq.children()
+            out.append(z3.Implies(z3.And(0 <= i, i < m), iget(sq, i) == mvar(g, u, i + 1)))
+        if z3.is_app(sq) and sq.decl().name() == 'mcol':
+            g, v, n = sq.children()
+            out.append(z3.Implies(z3.And(0 <= i, i < n), iget(sq, i) == mvar(g, i + 1, v)))
     for (A, n) in terms_by_decl.get('iofarr', []):
         out.append(z3.Implies(n >= 0, ilen(iofarr(A, n)) == n))                          # Seq.lean iofarr_len
     for (sq, i) in terms_by_decl.get('iget', []):
@@ -818,6 +835,8 @@ def _sem_on_terms(asgs, terms_by_decl):
             out.append(z3.Implies(z3.Not(haszero(s)), count(a, ineg(s)) == ilen(s) - count(a, s)))
         for (s, x) in terms_by_decl.get('isnoc', []):
             out.append(count(a, isnoc(s, x)) == count(a, s) + b2i(lit_true(a, x)))
+        for (s, t_) in terms_by_decl.get('iapp', []):
+            out.append(count(a, iapp(s, t_)) == count(a, s) + count(a, t_))          # Count.lean count_append
         for (c, s) in terms_by_decl.get('csnoc', []):
             out.append(sat(a, csnoc(c, s)) == z3.And(sat(a, c), ctrue(a, s)))     # L1 instance
         for (c, d) in terms_by_decl.get('capp', []):
